@@ -66,11 +66,17 @@ Definition expected_access (inp : list N) : list N :=
                     w <~ p_level ;; c <~ p_N ;; r <~ p_N ;; p_ret (rk, C, R, w, c, r)) inp with
   | None => BAD_CASE
   | Some (rk, C, R, w, c, r) =>
-      let q : option rect := match rk with 0 => Some (0, 0, C, R) | _ => sub_rect (0, 0, C, R) w end in
+      let outer := mkLevel true (1%N, 1%N, N.of_nat C, N.of_nat R) in
+      let q : option rect :=
+        match rk with
+        | 0 => Some (0, 0, C, R)
+        | 1 | 2 => sub_rect (0, 0, C, R) w
+        | _ => match sub_rect (0, 0, C, R) outer with Some o => sub_rect o w | None => None end
+        end in
       match q with
       | None => [0%N]
       | Some (x0, y0, nc, nr) =>
-          let mutable := negb (rk =? 1) in
+          let mutable := (rk =? 0) || (rk =? 2) || (rk =? 3) in
           if (c <? N.of_nat nc)%N && (r <? N.of_nat nr)%N then
             let i := N.of_nat ((y0 + N.to_nat r) * C + x0 + N.to_nat c) in
             1%N :: concat (repeat [1%N; i] ((if mutable then 6 else 3) + (if mutable then 4 else 2)))
